@@ -315,3 +315,26 @@ class OpaqueJson(Plugin):
         if rd.get('name') == 'operator[]' and args and self.is_json(args[0]):
             return '(*v_json_index(%s))' % unit.addr_of(args[0])
         return None
+
+
+class Chrono(Plugin):
+    """std::chrono::duration<...> as a plain 64-bit tick count (milliseconds / nanoseconds ...): construction from an integer
+    and count() are identity.  Only the operations listed here are supported."""
+    def is_dur(self, qt):
+        q = canon_type(qt)
+        return bool(re.match(r'^std::chrono::(duration<.*>|milliseconds|seconds|microseconds|nanoseconds)$', q))
+    def node_dur(self, node):
+        t = node.get('type', {})
+        return any(qt and self.is_dur(qt) for qt in (t.get('desugaredQualType'), t.get('qualType')))
+    def type_for(self, name, unit):
+        return 'int64_t' if self.is_dur(name) else None
+    def construct_expr(self, unit, n):
+        if not self.node_dur(n): return None
+        ks = unit.kids(n)
+        if len(ks) == 1: return '((int64_t)(%s))' % unit.expr(ks[0])
+        if not ks: return '((int64_t)0)'
+        return None
+    def member_call(self, unit, n, me, base, args):
+        if self.node_dur(base) and me['name'] == 'count':
+            return '(%s)' % unit.expr(base)
+        return None
